@@ -362,9 +362,41 @@ func (c *rpcCtx) verify(rq *request, body string, resp *jResp) {
 		storageRoot[a] = sr
 		c.loc.add("rpc contract: leaf proven from leaf data")
 	}
-	// 4. storage
+	// 4. storage. A contract named in several entries of the request is one claim about the union of its slots (juno
+	// merges such entries); the response carries one node list per distinct contract.
+	{
+		type ent = struct {
+			c    felt.Felt
+			keys []felt.Felt
+		}
+		var merged []ent
+		at := map[felt.Felt]int{}
+		for _, s := range rq.storage {
+			i, ok := at[s.c]
+			if !ok {
+				i = len(merged)
+				at[s.c] = i
+				merged = append(merged, ent{c: s.c})
+			}
+			for _, k := range s.keys {
+				dup := false
+				for _, k2 := range merged[i].keys {
+					dup = dup || k2.Equal(&k)
+				}
+				if !dup {
+					merged[i].keys = append(merged[i].keys, k)
+				}
+			}
+		}
+		if len(merged) != len(rq.storage) {
+			c.loc.add("rpc storage: request names a contract in several entries")
+		}
+		cp := *rq
+		cp.storage = merged
+		rq = &cp
+	}
 	if len(rq.storage) != len(res.StorageProofs) {
-		bad("storage-proof-count-differs-from-request", map[string]any{"requested": len(rq.storage), "got": len(res.StorageProofs)})
+		bad("storage-proof-count-differs-from-request", map[string]any{"requested_distinct_contracts": len(rq.storage), "got": len(res.StorageProofs)})
 		return
 	}
 	sets := make([][]pnode, len(res.StorageProofs))
@@ -702,6 +734,32 @@ func rpcState(r *ev.Run, rc *reach, newState bool, loc tally) {
 				}{a, slots})
 			}
 			do(rq)
+		}
+		// a contract named in several entries (slots split between them), other contracts in between
+		if len(slots) >= 2 {
+			half := len(slots) / 2
+			type sk = struct {
+				c    felt.Felt
+				keys []felt.Felt
+			}
+			for _, order := range [][3]int{{0, 1, 0}, {1, 0, 0}, {0, 0, 1}} {
+				rq := &request{blockID: latest, contracts: contracts}
+				cs := [2]felt.Felt{contracts[0], contracts[1]}
+				used := 0
+				for _, which := range order {
+					ks := slots
+					if which == 0 {
+						if used == 0 {
+							ks = slots[:half]
+						} else {
+							ks = slots[half:]
+						}
+						used++
+					}
+					rq.storage = append(rq.storage, sk{cs[which], ks})
+				}
+				do(rq)
+			}
 		}
 		// nothing requested: only the roots
 		do(&request{blockID: latest})
